@@ -8,7 +8,7 @@ LEVEL = 'translation_validation'
 THEOREMS = ['C13_tables_sorted', 'C13_message_rows', 'C13_group_rows', 'C13_fields_present', 'C13_domains_sorted', 'C13_nesting_preserved',
             'C13_expansion_plain', 'C13_expansion_optional', 'C13_expansion_component', 'C13_finding_depth3', 'C13_finding_depth3_in_group', 'C13_fixed_component_flags']
 # one count field reused by several messages: the valid families of C14 and its equal-key families (order / flag / component only)
-ALL_REUSE = f8ctv.VALID_REUSE + [f8ctv.fam_reuse_order, f8ctv.fam_reuse_flag, f8ctv.fam_reuse_component]
+ALL_REUSE = f8ctv.MULTI_ALL
 STOCK = ['FIXT11.xml', 'FIX40.xml', 'FIX41.xml', 'FIX42.xml', 'FIX42PERF.xml', 'FIX42UTEST.xml', 'FIX43.xml', 'FIX44.xml']
 
 
